@@ -86,7 +86,7 @@ func (vc *VC) runBody(act *Act, st *State) {
 	}
 	act.entry = st.clone()
 	order := rpo(fn)
-	act.in[fn.Blocks[0]] = []inEdge{{nil, st}}
+	act.in[fn.Blocks[0]] = []inEdge{{nil, st, 0}}
 	headerIndex := vc.eng.loopHeaders(fn)
 	for _, b := range order {
 		edges := act.in[b]
@@ -172,7 +172,7 @@ func (vc *VC) runBody(act *Act, st *State) {
 }
 
 func (vc *VC) addEdge(act *Act, from, to *ssa.BasicBlock, st *State) {
-	act.in[to] = append(act.in[to], inEdge{from, st})
+	act.in[to] = append(act.in[to], inEdge{from, st, len(vc.asserts)})
 }
 
 // execBlock executes instructions of b starting at index from.
@@ -716,6 +716,12 @@ func (vc *VC) cutLoop(act *Act, h *ssa.BasicBlock, st *State, phiVals map[*ssa.P
 			vc.oblige(st, &Obligation{Name: fmt.Sprintf("%s#loop%d#inv-entry#%s", vc.eng.shortName(act.fn), ordinal, clauseName(inv, n)), Kind: "loop-invariant-entry", Clause: inv.Text, Tags: vc.clauseTags(act.fc, inv), Src: fmt.Sprintf("%s:%d", shortFile(inv.File), inv.Line)}, f)
 		}
 	}
+	if lc != nil {
+		for n, a := range lc.EntryAsserts {
+			f := vc.evalBool(vc.specEnv(act, st, act.entry, "invariant", h), a)
+			vc.oblige(st, &Obligation{Name: fmt.Sprintf("%s#loop%d#entry-assert#%s", vc.eng.shortName(act.fn), ordinal, clauseName(a, n)), Kind: "loop-entry-assertion", Clause: a.Text, Tags: vc.clauseTags(act.fc, a), Src: fmt.Sprintf("%s:%d", shortFile(a.File), a.Line)}, f)
+		}
+	}
 	body := loopBody(h)
 	lf := vc.loopEffects(act, body)
 	// ghost updates attached to loops nested in this one happen inside its body
@@ -1022,9 +1028,12 @@ func (vc *VC) checkLoopPreserved(act *Act, h *ssa.BasicBlock, e inEdge, lc *Loop
 			}
 		}
 	}
+	// back edges are checked after the whole body has been executed: what was asserted between taking the edge and
+	// now describes later program points and is left out of these queries
+	evalStart := len(vc.asserts)
 	for n, inv := range lc.Invariants {
 		f := vc.evalBool(vc.specEnv(act, e.st, act.entry, "invariant", h), inv)
-		vc.oblige(e.st, &Obligation{Name: fmt.Sprintf("%s#loop%d#inv-preserved#%s", vc.eng.shortName(act.fn), ordinal, clauseName(inv, n)), Kind: "loop-invariant-preserved", Clause: inv.Text, Tags: vc.clauseTags(act.fc, inv), Src: fmt.Sprintf("%s:%d", shortFile(inv.File), inv.Line), localFrom: act.loopCutPos[h]}, f)
+		vc.oblige(e.st, &Obligation{Name: fmt.Sprintf("%s#loop%d#inv-preserved#%s", vc.eng.shortName(act.fn), ordinal, clauseName(inv, n)), Kind: "loop-invariant-preserved", Clause: inv.Text, Tags: vc.clauseTags(act.fc, inv), Src: fmt.Sprintf("%s:%d", shortFile(inv.File), inv.Line), localFrom: act.loopCutPos[h], skipFrom: e.pos, skipTo: evalStart}, f)
 	}
 	for phi, v := range saved {
 		act.env[phi] = v
@@ -1796,6 +1805,16 @@ func (vc *VC) mapUpdate(act *Act, st *State, i *ssa.MapUpdate) {
 	m := vc.val(act, i.Map).(MapV)
 	mt := i.Map.Type().Underlying().(*types.Map)
 	vc.fireMapEvent(act, st, "mapwrite", i.Map, i)
+	{
+		var recv Val
+		var recvT types.Type
+		if u, ok := i.Map.(*ssa.UnOp); ok {
+			if fa, ok := u.X.(*ssa.FieldAddr); ok {
+				recv, recvT = vc.val(act, fa.X), fa.X.Type()
+			}
+		}
+		vc.siteCheck(act, st, "mapwrite "+mapWhatOf(i.Map), i, nil, []Val{m, vc.val(act, i.Key), vc.val(act, i.Value)}, []types.Type{i.Map.Type(), i.Key.Type(), i.Value.Type()}, recv, recvT)
+	}
 	vc.safety(act, st, "nilmap", not(eq(m.ref, "0")), i.Pos())
 	key := vc.mapKey(st, vc.val(act, i.Key), mt.Key())
 	w := width(mt.Elem()) + 1
